@@ -12,6 +12,7 @@ pub mod noise;
 pub mod substream;
 pub mod svc;
 pub mod tcp;
+pub mod transports;
 
 pub mod kad {
     pub use crate::protocol::libp2p::kademlia::verif::*;
